@@ -1,9 +1,11 @@
 //! Property-based testing / fuzzing harness for `piecewise_polynomial`
 //! (see /verif/DESIGN.md).
 
+pub mod bench_data;
 pub mod findings;
 pub mod fl;
 pub mod gen;
+pub mod logint;
 pub mod model;
 pub mod num;
 pub mod props;
@@ -15,5 +17,6 @@ pub use runner::{DynProp, Tier};
 pub fn self_test() -> Vec<String> {
     let mut e = ppv_exact::self_test();
     e.extend(model::model_self_test());
+    e.extend(logint::self_test());
     e
 }
